@@ -54,6 +54,12 @@ fn junk() -> BoxedStrategy<Vec<u8>> {
         4 => (vec(prop::sample::select(vec![b'D', b'L', b'T', 1u8, 0, 9]), 0..40), tail.clone()).prop_map(|(mut a, t)| { a.extend(t); a }),
         3 => (vec(any::<u8>(), 0..60), tail).prop_map(|(mut a, t)| { a.extend(t); a }),
         1 => (any::<u64>(), 0usize..5000, 0u8..6).prop_map(|(s, l, a)| expand_bytes(s, l, a)),
+        // text (valid UTF-8 with multi-byte characters at every alignment)
+        2 => (any::<u64>(), 0usize..200, 1u8..4, 0usize..4).prop_map(|(s, l, a, pre)| {
+            let mut t = "xyz"[..pre].to_string();
+            t.push_str(&crate::util::expand_text(s, l, a));
+            t.into_bytes()
+        }),
         // a complete stored record whose marker got damaged (one to four bytes of "DLT\x01" changed), optionally with
         // a few more bytes around it
         2 => (g::message(g::MsgParams { storage: g::StorageMode::Always, large: false, ..Default::default() }), vec((0usize..4, any::<u8>()), 1..3), vec(any::<u8>(), 0..4), vec(any::<u8>(), 0..4))
@@ -81,6 +87,28 @@ fn check_search(buf: &[u8]) -> CheckResult {
         (Some(k), Some((n, rest_len, ptr))) => {
             if n as usize != k || rest_len != buf.len() - k || ptr != buf.as_ptr() as usize + k {
                 return Err(viol!("search:wrong-offset", "first pattern is at {} but the search reports {} dropped bytes and a remainder of {} bytes ({})", k, n, rest_len, hex_short(buf)));
+            }
+            // history: the same buffer (same address, same leading bytes) was searched in vain a moment ago — a block
+            // read into a reused buffer — and now holds the pattern: search and parse answer as for a fresh buffer
+            if k >= 1 && buf.len() <= 100_000 {
+                let mut scratch = buf.to_vec();
+                let later = refcodec::find_pattern(&buf[k + 1..]).map(|p| p + k + 1);
+                scratch[k + 3] = 0x02;
+                let vain = guard(|| forward_to_next_storage_header(&scratch).map(|(n, _)| n)).map_err(|p| Violation::from_panic("forward_to_next_storage_header", &p))?;
+                if vain.map(|n| n as usize) != later {
+                    return Err(viol!("search:presence", "pattern position is {:?} but the search returned {:?} ({})", later, vain, hex_short(&scratch)));
+                }
+                let _ = guard(|| dlt_message(&scratch, None, true).map(|(r, _)| r.len()));
+                scratch[k + 3] = 0x01;
+                let again = guard(|| forward_to_next_storage_header(&scratch).map(|(n, _)| n)).map_err(|p| Violation::from_panic("forward_to_next_storage_header", &p))?;
+                if again != Some(k as u64) {
+                    return Err(viol!("search:history", "the same buffer searched in vain a moment ago and refilled: the pattern at {} is reported at {:?} ({})", k, again, hex_short(buf)));
+                }
+                let fresh = guard(|| dlt_message(buf, None, true).map(|(r, pm)| (r.len(), pm))).map_err(|p| Violation::from_panic("dlt_message", &p))?;
+                let reused = guard(|| dlt_message(&scratch, None, true).map(|(r, pm)| (r.len(), pm))).map_err(|p| Violation::from_panic("dlt_message", &p))?;
+                if format!("{:?}", fresh) != format!("{:?}", reused) {
+                    return Err(viol!("parse:history", "a reused buffer parses differently from a fresh one with the same bytes: {} vs {} ({})", short_dbg(&reused), short_dbg(&fresh), hex_short(buf)));
+                }
             }
             let again = refcodec::find_pattern(&buf[k + 1..]).is_some();
             Ok(Pass::new(true).class("search:found").class_if(k > 0, "search:junk-before").class_if(again, "search:several-patterns"))
